@@ -169,10 +169,9 @@ def afterTake (d : Dir) : Res → Rd
 def step (s : Sys) : Label → Option Sys
   | .deliver d r =>
     let x := s.side d
-    if srcClosed s d then none
-    else match x.r with
-      | .selReading => some (s.setSide d { x with r := .selReady r })
-      | _ => if x.leak then some (s.setSide d { x with leak := false }) else none
+    match x.r with
+    | .selReading => if !srcClosed s d then some (s.setSide d { x with r := .selReady r }) else none
+    | _ => if !srcClosed s d && x.leak then some (s.setSide d { x with leak := false }) else none
   | .closing => some { s with closing := true }
   | .callerClose => if s.returned then some { s with ccClosed := true } else none
   | .stall d => some (s.setSide d { s.side d with stalled := true })
@@ -201,7 +200,7 @@ def step (s : Sys) : Label → Option Sys
     let x := s.side d
     match x.r with
     | .pushing t (n+1) =>
-      if (s.side t).out < cap then
+      if Nat.blt (s.side t).out cap then
         let s1 := s.setSide d { x with r := .pushing t n }
         let y := s1.side t
         some (s1.setSide t { y with out := y.out + 1 })
